@@ -1,4 +1,5 @@
 import MindsVerif.Lemmas.Iso
+import MindsVerif.Lemmas.Reuse
 /-!
 # C20 — calls are isolated  (logical structure)
 
@@ -198,5 +199,163 @@ example : runSchedG [1, 2, 3] demoStepG [1, 1, 1, 1, 0, 0, 0] ([7, 2], [.inl (2,
 -- [review]
 example : (demoStepG (fun x => [7].contains x) (2, 0), demoStepG (fun x => [7, 1, 2, 3].contains x) (2, 0))
     = (.inl (1, 1), .inl (1, 100)) := by decide
+
+/-! ## Round 5 — REUSED objects
+
+The theorems above give every call a fresh private cell.  `SqlalchemyRender`, `QueryPlanner` and the lexer / parser
+pairs of `get_lexer_parser` are objects a caller may keep and call again; seed C20_10 hoisted the `sa.MetaData()` of
+CREATE / DROP TABLE into the renderer, so that what a renderer returns depended on what it had rendered before —
+invisible to every stream that builds a new object per call.
+
+`Model/Reuse.lean`: an object is a store of attributes; a call has a footprint (exposed reads, net writes).
+* `C20_reuse_history_independent`: if the call semantics respects the footprints and the call reads nothing that a
+  call of the history may have written (`frameOkFor`, decidable on a finite footprint table), the result after ANY
+  history is the result on the object as constructed.
+* `C20_reuse_any_two_histories`, `C20_reuse_table_history_independent`: the same for two histories, and for a
+  generated table (`tableOk`; calls = rows).
+* `C20_reuse_memo_transparent`: attributes that are memo tables of a pure function (filled by calls, consulted
+  through look-up only, consistent at the start) do not count: with them the result is still the memo-free one.
+* `C20_witness_reuse_*`: the registry object (`Reg`) violates the frame condition and IS history dependent
+  (CREATE after CREATE, CREATE after DROP, SELECT after a statement with a CTE of that name); the repaired object
+  satisfies the condition.
+What ties this to the code: `tools/extract/x_footprint.py` probes the footprint table on the live objects on every
+run (`Gen/Footprint.lean`), `Props/C20B.lean` decides the frame condition on it in the kernel, and the `reuse-*`
+streams of `tools/props/c20.py` compare every call of random sessions on ONE reused object with the same call on a
+fresh object in a pristine process.  `Respects` itself (the trace sees every dependence) is assumed, not proved. -/
+
+section Reuse
+open MindsVerif.Reuse
+
+/-- **history independence of a reused object** -/
+theorem C20_reuse_history_independent {κ V C R : Type} [BEq κ] [LawfulBEq κ]
+    (run : C → Obj κ V → Obj κ V × R) (fp : C → Foot κ) (hr : Respects run fp)
+    (h : List C) (c : C) (hok : frameOkFor fp h c = true) (s : Obj κ V) :
+    (run c (runHist run h s)).2 = (run c s).2 := by
+  apply hr.reads_only
+  intro k hk
+  exact runHist_untouched run fp hr k h s (fun c' hc' => frameOkFor_spec fp h c hok c' hc' k hk)
+
+/-- any two histories over entry points that satisfy the pairwise frame condition give the same result -/
+theorem C20_reuse_any_two_histories {κ V C R : Type} [BEq κ] [LawfulBEq κ]
+    (run : C → Obj κ V → Obj κ V × R) (fp : C → Foot κ) (hr : Respects run fp) (calls : List C)
+    (hok : frameOk fp calls = true) (h₁ h₂ : List C) (c : C) (hc : c ∈ calls)
+    (hh₁ : ∀ c', c' ∈ h₁ → c' ∈ calls) (hh₂ : ∀ c', c' ∈ h₂ → c' ∈ calls) (s : Obj κ V) :
+    (run c (runHist run h₁ s)).2 = (run c (runHist run h₂ s)).2 := by
+  rw [C20_reuse_history_independent run fp hr h₁ c (frameOk_spec fp calls h₁ c hok hc hh₁),
+    C20_reuse_history_independent run fp hr h₂ c (frameOk_spec fp calls h₂ c hok hc hh₂)]
+
+/-- the same on a footprint table as generated (calls are row numbers): this is the statement
+`Props/C20B.lean` instantiates with `Gen.Footprint` -/
+theorem C20_reuse_table_history_independent {V R : Type} (tbl : List Row) (hok : tableOk tbl = true)
+    (run : Nat → Obj String V → Obj String V × R) (hr : Respects run (footOf tbl))
+    (h : List Nat) (c : Nat) (hc : c < tbl.length) (hh : ∀ c', c' ∈ h → c' < tbl.length) (s : Obj String V) :
+    (run c (runHist run h s)).2 = (run c s).2 := by
+  apply C20_reuse_history_independent run (footOf tbl) hr h c _ s
+  apply frameOk_spec (footOf tbl) (List.range tbl.length) h c hok
+  · exact List.mem_range.mpr hc
+  · intro c' hc'; exact List.mem_range.mpr (hh c' hc')
+
+/-- **memo tables are transparent**: calls that consult a memo table of a pure function `g` only through look-up
+and fill it with values of `g` give, after any history and from any consistent memo table, the result of the
+memo-free semantics `runM c g` on the object as constructed (frame condition on the remaining attributes). -/
+theorem C20_reuse_memo_transparent {κ V C R μ W : Type} [BEq κ] [LawfulBEq κ] [DecidableEq μ]
+    (g : μ → W) (runM : C → (μ → W) → Obj κ V → Obj κ V × R × List μ) (fp : C → Foot κ)
+    (hr : Respects (fun c s => ((runM c g s).1, (runM c g s).2.1)) fp)
+    (h : List C) (c : C) (hok : frameOkFor fp h c = true) (s : Obj κ V) (m : μ → Option W)
+    (hm : Consistent g m) :
+    (runMemo g runM c (runHistMemo g runM h (s, m))).2 = (runM c g s).2.1 := by
+  have key : ∀ (h : List C) (s : Obj κ V) (m : μ → Option W), Consistent g m →
+      (runHistMemo g runM h (s, m)).1 = runHist (fun c s => ((runM c g s).1, (runM c g s).2.1)) h s ∧
+      Consistent g (runHistMemo g runM h (s, m)).2 := by
+    intro h
+    induction h with
+    | nil => intro s m hm; exact ⟨rfl, hm⟩
+    | cons c h ih =>
+      intro s m hm
+      have hstep : runHistMemo g runM (c :: h) (s, m)
+          = runHistMemo g runM h ((runM c g s).1, fill g m (runM c g s).2.2) := by
+        simp only [runHistMemo, List.foldl_cons, runMemo, lookup_consistent g m hm]
+      rw [hstep]
+      exact ih _ _ (fill_consistent g m _ hm)
+  obtain ⟨h1, h2⟩ := key h s m hm
+  have hres : (runMemo g runM c (runHistMemo g runM h (s, m))).2
+      = (runM c g (runHistMemo g runM h (s, m)).1).2.1 := by
+    simp only [runMemo, lookup_consistent g _ h2]
+  rw [hres, h1]
+  exact C20_reuse_history_independent (fun c s => ((runM c g s).1, (runM c g s).2.1)) fp hr h c hok s
+
+/-! ### witnesses: the registry object (seed C20_10's `self.metadata`; the planner's `cte_results`) -/
+
+/-- the registry object respects its footprints … -/
+theorem regRun_respects : Respects regRun regFoot := by
+  constructor
+  · intro c s s' hs
+    cases c with
+    | define n => rfl
+    | use n => simp only [regRun]; rw [hs () (by simp [regFoot])]
+    | create n => simp only [regRun]; rw [hs () (by simp [regFoot])]
+  · intro c s k hk
+    cases c with
+    | define n => exact absurd (by simp [regFoot]) hk
+    | use n => rfl
+    | create n => exact absurd (by simp [regFoot]) hk
+
+/-- … but violates the frame condition (kernel-decided, like the obligation on the generated table) -/
+theorem C20_witness_reuse_frame_broken :
+    frameOk regFoot [.create 1, .define 1, .use 1] = false := by decide
+
+/-- CREATE TABLE 1 rendered a second time by the same object differs from the first time (seed C20_10) -/
+theorem C20_witness_reuse_create_twice :
+    (regRun (.create 1) (runHist regRun [.create 1] (fun _ => []))).2 ≠ (regRun (.create 1) (fun _ => [])).2 := by
+  decide
+
+/-- DROP TABLE 1 then CREATE TABLE 1 (seed C20_10), and: a statement that plans CTE 1, then SELECT … FROM 1 on the
+same planner (KF-C20-r5-1, `QueryPlanner.cte_results`); other names are not affected -/
+theorem C20_witness_reuse_define_then_use :
+    (regRun (.create 1) (runHist regRun [.define 1] (fun _ => []))).2 ≠ (regRun (.create 1) (fun _ => [])).2 ∧
+    (regRun (.use 1) (runHist regRun [.define 1] (fun _ => []))).2 ≠ (regRun (.use 1) (fun _ => [])).2 ∧
+    (regRun (.use 2) (runHist regRun [.define 1, .create 3] (fun _ => []))).2 = (regRun (.use 2) (fun _ => [])).2 := by
+  decide
+
+/-- the repaired object (registry emptied at the start of every call) respects footprints without exposed reads,
+satisfies the frame condition for every set of calls, hence is history independent -/
+theorem regRunFixed_respects : Respects regRunFixed regFootFixed := by
+  constructor
+  · intro c s s' _; rfl
+  · intro c s k hk
+    cases c <;> exact absurd (by simp [regFootFixed]) hk
+
+theorem C20_witness_reuse_fixed (h : List RegCall) (c : RegCall) (s : Obj Unit (List Nat)) :
+    (regRunFixed c (runHist regRunFixed h s)).2 = (regRunFixed c s).2 := by
+  apply C20_reuse_history_independent regRunFixed regFootFixed regRunFixed_respects h c _ s
+  simp only [frameOkFor, List.all_eq_true]
+  intro c' _ k hk
+  cases c <;> simp [regFootFixed] at hk
+
+/-! non-vacuity of the table form: a two-row table (a renderer whose calls read `dialect`, `types_map` and write a
+memo path below `dialect`) is not ok as it stands, ok once the memo path is stripped; hoisting `metadata` breaks it -/
+def demoTbl : List Row :=
+  [⟨"get_string", ["dialect", "types_map"], [("dialect", "dialect.identifier_preparer._strings")]⟩,
+   ⟨"get_exec_params", ["dialect", "types_map"], []⟩]
+def demoTblSeed : List Row :=
+  [⟨"get_string", ["dialect", "metadata", "types_map"],
+    [("dialect", "dialect.identifier_preparer._strings"), ("metadata", "metadata.tables")]⟩,
+   ⟨"get_exec_params", ["dialect", "types_map"], []⟩]
+example : tableOk demoTbl = false := by decide
+example : tableOk (demoTbl.map (strip ["dialect.identifier_preparer._strings"])) = true := by decide
+example : tableOk (demoTblSeed.map (strip ["dialect.identifier_preparer._strings"])) = false := by decide
+example : conflicts (demoTblSeed.map (strip ["dialect.identifier_preparer._strings"]))
+    = [("get_string", "get_string", "metadata.tables")] := by decide
+
+/-- memo non-vacuity: a renderer-like call that quotes name `k` through the memo table: same answer from the empty
+and from a filled consistent table; a STALE entry (seed C20_6: the rule changed after the entry was stored) shows -/
+def demoQuote (k : Nat) : Bool := k % 2 == 0
+def demoRunM (c : Nat) (q : Nat → Bool) (s : Obj Unit Nat) : Obj Unit Nat × Bool × List Nat := (s, q c, [c])
+example : (runMemo demoQuote demoRunM 4 (runHistMemo demoQuote demoRunM [4, 3, 4] (fun _ => 0, fun _ => none))).2
+    = true := by decide
+example : (runMemo demoQuote demoRunM 4 (fun _ => 0, fun k => if k = 4 then some false else none)).2 = false := by
+  decide
+
+end Reuse
 
 end MindsVerif.Props.C20
